@@ -308,13 +308,41 @@ func (w world) RunCase(t *tape.Tape, st *super.Stats) *super.Violation {
 	g.NoFuncs = false
 	g.FuncBias = true
 	W := 2 + t.Draw(4)
+	// "crowd" cases: many clients with short programs all running shared machine 0 (anything that counts or
+	// limits simultaneous runs of one machine needs more of them than a handful)
+	crowd := t.Rare(8)
+	if crowd {
+		W = 17 + t.Draw(8)
+		inc("reach:crowd_of_17plus_clients_on_one_machine")
+		// prefer a comparison with a leaf-list on the left: the run then spends time inside one instruction
+		for _, n := range tree.Nodes {
+			if n.Kind == faulttree.LeafList && t.Coin() {
+				g.Ctx = tree.Root
+				e := "/" + strings.TrimPrefix(n.String(), "/")
+				if i := strings.Index(e, "["); i < 0 {
+					m, _ := compileOp(op{gram: 0, expr: e + " = 'x'"})
+					if m != nil {
+						sharedExpr[0], shared[0], sharedList[0] = e+" = 'x'", m, m.PrintMachine()+m.GetExpr()
+					}
+				}
+				break
+			}
+		}
+	}
 	progs := make([][]op, W)
 	for c := 0; c < W; c++ {
 		n := 3 + t.Draw(7)
+		if crowd {
+			n = 1 + t.Draw(2)
+		}
 		for i := 0; i < n; i++ {
 			g.Ctx = tree.Nodes[t.Draw(len(tree.Nodes))]
 			var o op
-			switch t.Pick(3, 4, 2) {
+			w0, w1, w2 := 3, 4, 2
+			if crowd {
+				w0, w1, w2 = 0, 1, 0
+			}
+			switch t.Pick(w0, w1, w2) {
 			case 0:
 				o = op{kind: 0, gram: t.Pick(5, 2, 1, 2, 1), mapMode: t.Pick(3, 3, 1)}
 				switch t.Pick(6, 2, 1) {
@@ -327,6 +355,9 @@ func (w world) RunCase(t *tape.Tape, st *super.Stats) *super.Violation {
 				}
 			case 1:
 				o = op{kind: 1, shared: t.Draw(nShared), ctx: t.Draw(len(tree.Nodes))}
+				if crowd {
+					o.shared = 0
+				}
 				if t.Rare(3) {
 					o.failAt = 1 + t.Draw(4)
 				}
